@@ -27,7 +27,19 @@
    the compressed form of nothing sz.z0 bytes (a deflate/gzip stream is never empty).
 
    KNOWN DEVIATIONS are constants: TRUE = the ideal design, FALSE = the code as found.
-   Every invariant holds in the ideal configuration.                                          *)
+   Every invariant holds in the ideal configuration (WireDecision_ideal.cfg).  The configuration
+   of the code as found is WireDecision_ascoded.cfg: there the invariants <Inv>ButKnown hold,
+   i.e. the full invariants outside the input regions of the deviations whose constant is FALSE.
+   PrintExhibits (POSTCONDITION of the ideal run) enumerates, for every deviation switched off
+   alone, which invariants break, on how many inputs, and a witness input.
+
+   Invariants (all evaluated over the full product, no interleaving):
+     FramingTruthful     the bytes the sender's writer mode emits are exactly what
+                         Rfc9112BodyLength(emitted fields) delimits; no CL+TE, no TE on 1.0,
+                         no CL/TE on 204 / 2xx-to-CONNECT
+     ReceiverFollowsRfc  the receiver's parser branch = Rfc9112BodyLength(emitted fields)
+     CloseAgree          srvKeepsOpen <=> cliReuses, and UntilEOF => ~srvKeepsOpen
+     NoHang              never (UntilEOF /\ srvKeepsOpen); never (client waits for 100 /\ server sends none)  *)
 EXTENDS Naturals, Integers, Sequences, FiniteSets, TLC
 
 CONSTANTS
@@ -39,9 +51,9 @@ CONSTANTS
     HandlerConnHonored,     \* (vi)  a Connection header set by the handler and resp.keep_alive agree (code: header passed through)
     HeadReqBodyFramed,      \* (vii) HttpRequestParser frames the body of a HEAD request by CL/TE (code: treats it as empty)
     HeadNoLenReusable,      \* (viii) client: HEAD response without CL/TE on HTTP/1.1 does not imply close (code: close)
-    ConnectAware,           \* (ix)  RFC 9110 9.3.6 on both ends: non-2xx answer to CONNECT = ordinary response, the connection
-                            \*       persists (code: server always closes after its lingering time); 2xx = tunnel, never reused
-                            \*       (code: the client parser does not know the method and pools e.g. CONNECT + 204)
+    ConnectAware,           \* (ix)  the server, which consumes everything after a CONNECT request as tunnel data and closes,
+                            \*       announces it: request.keep_alive is False, the answer carries Connection: close
+                            \*       (code: closes silently after its lingering time; the client pools e.g. CONNECT + 404/204)
     Http10NoChunkedReq,     \* (x)   client refuses / avoids Transfer-Encoding on an HTTP/1.0 request (code: sends it)
     Expect10Proceeds,       \* (xi)  client does not wait for 100 Continue on HTTP/1.0 (code: waits forever)
     RefusedPrepareCleansWriter  \* (xii) prepare() that raises (chunked encoding on HTTP/1.0) leaves the request's StreamWriter
@@ -55,7 +67,8 @@ Methods   == {"GET", "HEAD", "POST", "CONNECT"}
 Versions  == {10, 11}
 ReqConns  == {"absent", "close", "keepalive"}
 Statuses  == {200, 204, 304, 404}
-Kinds     == {"bytes0", "bytesN", "paySized", "payUnsized", "streamCL", "streamChunked", "streamPlain", "file"}
+Kinds     == {"bytes0", "bytesN", "bytesChunked", "paySized", "payUnsized", "streamCL", "streamChunked", "streamPlain", "file"}
+             \* bytesChunked = web.Response(body=bytes) + enable_chunked_encoding(): head and body leave in one write
 Comps     == {"off", "nego", "forced"}
 HConns    == {"none", "close", "keepalive"}
 
@@ -105,11 +118,11 @@ IsStream(k)    == k \in {"streamCL", "streamChunked", "streamPlain"}
 IsBytes(k)     == k \in {"bytes0", "bytesN"}
 Logical(k, sz) == IF k = "bytes0" THEN 0 ELSE sz.n
 
-SrvDecide(i, sz) ==
+SrvDecideD(i, sz, D) ==
     LET me      == MustEmpty(i.m, i.st)
         comp    == i.comp # "off"
         L       == Logical(i.kind, sz)
-        chFlag  == i.kind = "streamChunked"                     \* enable_chunked_encoding()
+        chFlag  == i.kind \in {"streamChunked", "bytesChunked"}  \* enable_chunked_encoding()
         refused == chFlag /\ i.ver # 11                         \* _prepare_headers raises RuntimeError
         \* Response._start / handler / FileResponse: Content-Length before compression
         cl0     == CASE IsBytes(i.kind)       -> (IF L # 0 \/ (i.st # 304 /\ i.m # "HEAD") THEN L ELSE None)
@@ -122,8 +135,8 @@ SrvDecide(i, sz) ==
         cl1     == IF whole THEN Zof(L, sz) ELSE IF wComp THEN None ELSE cl0
         handed  == IF whole THEN Zof(L, sz) ELSE L              \* bytes a Response hands to write_eof
         \* _prepare_headers
-        closeH  == HandlerConnHonored /\ i.hconn = "close"
-        ka0     == IF i.fclose \/ closeH THEN FALSE ELSE ~ReqClose(i.ver, i.rconn)
+        closeH  == D.HandlerConnHonored /\ i.hconn = "close"
+        ka0     == IF i.fclose \/ closeH \/ (D.ConnectAware /\ i.m = "CONNECT") THEN FALSE ELSE ~ReqClose(i.ver, i.rconn)
         wLen    == IF chFlag THEN None
                    ELSE IF cl1 # None THEN cl1
                    ELSE IF IsBytes(i.kind) THEN L               \* Response.content_length: len(body)
@@ -132,28 +145,30 @@ SrvDecide(i, sz) ==
         wChunk  == ~me /\ i.ver = 11 /\ (chFlag \/ unsized)     \* writer.enable_chunking()
         eofDel  == unsized /\ i.ver = 10 /\ ~me                 \* `keep_alive = False` (local)
         kaHdr   == IF eofDel THEN FALSE ELSE ka0
-        kaSelf  == IF eofDel /\ Http10UnsizedCloses THEN FALSE ELSE ka0
+        kaSelf  == IF eofDel /\ D.Http10UnsizedCloses THEN FALSE ELSE ka0
         cl2     == IF me /\ RemoveCL(i.m, i.st) THEN None ELSE cl1
         autoCon == IF kaHdr THEN (IF i.ver = 10 THEN "keep-alive" ELSE "none")
                    ELSE (IF i.ver = 11 THEN "close" ELSE "none")
-        conn    == IF i.hconn = "none" \/ HandlerConnHonored THEN autoCon
-                   ELSE IF i.hconn = "close" THEN "close" ELSE "keep-alive"
+        conn    == IF i.hconn = "none" THEN autoCon
+                   ELSE IF i.hconn = "close" THEN "close"
+                   ELSE IF D.HandlerConnHonored /\ ~kaHdr THEN autoCon      \* contradicting keep-alive header dropped
+                   ELSE "keep-alive"
         \* what is pushed through StreamWriter.write / write_eof
         P       == CASE IsStream(i.kind) ->
                             (IF i.st \in {204, 304} THEN 0      \* the handler knows its own status
-                             ELSE IF i.m = "HEAD" /\ HeadStreamSuppressed THEN 0
+                             ELSE IF i.m = "HEAD" /\ D.HeadStreamSuppressed THEN 0
                              ELSE L)
                      [] me                 -> 0                  \* Response.write_eof / FileResponse.prepare skip the body
                      [] IsBytes(i.kind)    -> handed
                      [] OTHER              -> L
-        sent    == IF wComp
-                   THEN (IF me /\ EmptyBodyNoFlush THEN 0 ELSE Zof(P, sz))     \* write_eof: compress.flush()
+        wCompE  == wComp /\ ~(me /\ D.EmptyBodyNoFlush)           \* ideal: no writer compression behind a body-less head
+        sent    == IF wCompE THEN Zof(P, sz)                     \* write_eof: compress.flush() is never empty
                    ELSE IF wLen # None /\ ~IsBytes(i.kind) THEN Min(P, wLen)   \* StreamWriter.write length cap
                    ELSE P
-        linger  == i.m = "CONNECT" /\ ~(ConnectAware /\ i.st \notin 200..299)
+        linger  == i.m = "CONNECT"                              \* request payload never ends: lingering close
         \* refused: the handler's exception is answered by RequestHandler.handle_error (500 text page, force_close)
-        stale   == comp /\ ~RefusedPrepareCleansWriter         \* writer.enable_compression() happened before the raise
-        sentR   == IF i.m = "HEAD" THEN (IF stale /\ ~EmptyBodyNoFlush THEN Zof(0, sz) ELSE 0)
+        stale   == comp /\ ~D.RefusedPrepareCleansWriter         \* writer.enable_compression() happened before the raise
+        sentR   == IF i.m = "HEAD" THEN (IF stale /\ ~D.EmptyBodyNoFlush THEN Zof(0, sz) ELSE 0)
                    ELSE IF stale THEN Zof(sz.n, sz) ELSE sz.n
     IN IF refused
        THEN [refused |-> TRUE, st |-> 500,
@@ -165,7 +180,7 @@ SrvDecide(i, sz) ==
              keeps |-> kaSelf /\ ~linger]
 
 (* Response side, receiver: the client.  e = emitted fields [st, cl, te, conn].                *)
-CliDecide(i0, e) ==
+CliDecideD(i0, e, D) ==
     LET i       == [i0 EXCEPT !.st = e.st]
         err     == e.te # "none" /\ e.cl # None                     \* parse_headers: BadHttpMessage
         noLen   == e.cl = None /\ e.te = "none"
@@ -174,7 +189,7 @@ CliDecide(i0, e) ==
                    ELSE IF i.ver = 10 THEN TRUE
                    ELSE IF i.st \in 100..199 \/ i.st \in {204, 304} THEN FALSE
                    ELSE IF ~noLen THEN FALSE
-                   ELSE IF HeadNoLenReusable /\ i.m = "HEAD" THEN FALSE
+                   ELSE IF D.HeadNoLenReusable /\ i.m = "HEAD" THEN FALSE
                    ELSE TRUE
         emptyB  == i.st \in {204, 304} \/ i.st \in 100..199         \* parser.method is None on the client
         skip    == i.m = "HEAD"                                     \* response_with_body = False
@@ -184,14 +199,13 @@ CliDecide(i0, e) ==
                    ELSE IF ~emptyB /\ e.cl = None                   \* read_until_eof = True
                        THEN (IF skip THEN Mode("Empty", 0) ELSE Mode("UntilEOF", 0))
                    ELSE Mode("Empty", 0)
-        tunnel  == ConnectAware /\ i.m = "CONNECT" /\ i.st \in 200..299
-    IN [err |-> err, mode |-> mode, reuses |-> ~err /\ ~close /\ mode.k # "UntilEOF" /\ ~tunnel]
+    IN [err |-> err, mode |-> mode, reuses |-> ~err /\ ~close /\ mode.k # "UntilEOF"]
 
 -----------------------------------------------------------------------------
 (* Request side, sender: the client.                                                            *)
 GetMethods == {"GET", "HEAD"}         \* ClientRequest.GET_METHODS (+ OPTIONS, TRACE)
 
-ReqDecide(r, sz) ==
+ReqDecideD(r, sz, D) ==
     LET hasData  == r.body # "none"
         truthy   == r.body \in {"sized", "unsized"}              \* `if not data: return`
         L        == IF truthy THEN sz.n ELSE 0
@@ -205,26 +219,50 @@ ReqDecide(r, sz) ==
         ch1      == IF hasData /\ ~chT0 /\ r.body = "unsized" THEN "True" ELSE ch0
         chT      == ch1 = "True"
         \* _update_transfer_encoding is only called when data is not None or method not in GET_METHODS
-        teCalled == hasData \/ r.m \notin GetMethods \/ ChunkedSetsTE
+        teCalled == hasData \/ r.m \notin GetMethods \/ D.ChunkedSetsTE
         te       == IF chT /\ teCalled THEN "chunked" ELSE "none"
-        refused  == (Http10NoChunkedReq /\ r.ver = 10 /\ te = "chunked")
+        refused  == (D.Http10NoChunkedReq /\ r.ver = 10 /\ te = "chunked")
         \* _create_writer
-        wChunk   == IF ChunkedFlagTruthy THEN chT ELSE ch1 # "None"
+        wChunk   == IF D.ChunkedFlagTruthy THEN chT ELSE ch1 # "None"
         sent     == IF comp THEN Zof(L, sz) ELSE L
-        waits100 == r.expect /\ ~(Expect10Proceeds /\ r.ver = 10)
-    IN [refused |-> refused, cl |-> cl, te |-> te, ce |-> comp, expect |-> r.expect,
+        expectH  == r.expect /\ ~(D.Expect10Proceeds /\ r.ver = 10)   \* ideal: no expectation towards an HTTP/1.0 server
+        waits100 == expectH
+    IN [refused |-> refused, cl |-> cl, te |-> te, ce |-> comp, expect |-> expectH,
         wChunked |-> wChunk, sent |-> sent, waits100 |-> waits100]
 
 (* Request side, receiver: the server.                                                          *)
-SrvReqDecide(r, e) ==
+SrvReqDecideD(r, e, D) ==
     LET err    == e.te # "none" /\ e.cl # None
-        emptyB == ~HeadReqBodyFramed /\ r.m = "HEAD"            \* `method in EMPTY_BODY_METHODS`
+        emptyB == ~D.HeadReqBodyFramed /\ r.m = "HEAD"            \* `method in EMPTY_BODY_METHODS`
         mode   == IF ~emptyB /\ (e.cl > 0 \/ e.te = "chunked")
                       THEN (IF e.te = "chunked" THEN Mode("Chunked", 0) ELSE Mode("Length", e.cl))
                   ELSE IF ~emptyB /\ e.cl = 0 THEN Mode("Length", 0)
                   ELSE Mode("Empty", 0)
         sends100 == e.expect /\ r.ver = 11                       \* _default_expect_handler
     IN [err |-> err, mode |-> mode, sends100 |-> sends100]
+
+-----------------------------------------------------------------------------
+(* The tables take the deviation switches as a record D; DC is the configuration given by the CONSTANTS.   *)
+DevNames == {"Http10UnsizedCloses", "ChunkedFlagTruthy", "ChunkedSetsTE", "HeadStreamSuppressed", "EmptyBodyNoFlush", "HandlerConnHonored", "HeadReqBodyFramed", "HeadNoLenReusable", "ConnectAware", "Http10NoChunkedReq", "Expect10Proceeds", "RefusedPrepareCleansWriter"}
+DC == [Http10UnsizedCloses |-> Http10UnsizedCloses,
+       ChunkedFlagTruthy |-> ChunkedFlagTruthy,
+       ChunkedSetsTE |-> ChunkedSetsTE,
+       HeadStreamSuppressed |-> HeadStreamSuppressed,
+       EmptyBodyNoFlush |-> EmptyBodyNoFlush,
+       HandlerConnHonored |-> HandlerConnHonored,
+       HeadReqBodyFramed |-> HeadReqBodyFramed,
+       HeadNoLenReusable |-> HeadNoLenReusable,
+       ConnectAware |-> ConnectAware,
+       Http10NoChunkedReq |-> Http10NoChunkedReq,
+       Expect10Proceeds |-> Expect10Proceeds,
+       RefusedPrepareCleansWriter |-> RefusedPrepareCleansWriter]
+Ideal == [n \in DevNames |-> TRUE]
+OnlyOff(k) == [n \in DevNames |-> n # k]          \* everything ideal except deviation k
+
+SrvDecide(i, sz)    == SrvDecideD(i, sz, DC)
+CliDecide(i, e)     == CliDecideD(i, e, DC)
+ReqDecide(r, sz)    == ReqDecideD(r, sz, DC)
+SrvReqDecide(r, e)  == SrvReqDecideD(r, e, DC)
 
 -----------------------------------------------------------------------------
 (* The model: pure enumeration.                                                                 *)
@@ -265,12 +303,10 @@ Next == ServerDecide \/ ClientDecide \/ ClientReqDecide \/ ServerReqDecide
 Spec == Init /\ [][Next]_vars
 
 -----------------------------------------------------------------------------
-(* Invariants.  They speak about completed, non-refused decisions.                              *)
+(* Invariants.  One definition (RespChecks / ReqChecks) serves the state invariants below and the
+   constant-level enumeration PrintExhibits.                                                     *)
 RespDone == side = "resp" /\ phase = "done"
 ReqDone  == side = "req" /\ phase = "done" /\ ~out.refused
-
-Oracle    == Rfc9112BodyLength(out.st, inp.m, inp.ver, out)
-ReqOracle == Rfc9112ReqBodyLength(out)
 
 \* the bytes the writer mode emits are exactly what the oracle delimits from the emitted fields
 Truthful(o, w) ==
@@ -287,41 +323,73 @@ FieldRules(ver, st, m, w) ==
     /\ ver = 10 => w.te = "none"
     /\ (st = 204 \/ st \in 100..199 \/ (m = "CONNECT" /\ st \in 200..299)) => (w.cl = None /\ w.te = "none")
 
-FramingTruthful ==
-    /\ RespDone => Truthful(Oracle, out) /\ FieldRules(inp.ver, out.st, inp.m, out)
-    /\ ReqDone => Truthful(ReqOracle, out) /\ FieldRules(inp.ver, 0, "", out)
-
 Norm(a) == IF a.k = "Length" /\ a.n = 0 THEN Mode("Empty", 0) ELSE a      \* a zero-length body is no body
 SameMode(a, b) == Norm(a) = Norm(b)
                   \/ (a.k = "Tunnel" /\ b.k = "UntilEOF")              \* a tunnel is consumed until the connection ends
 
-ReceiverFollowsRfc ==
-    /\ RespDone => ~rcv.err /\ SameMode(Oracle, rcv.mode)
-    /\ ReqDone => ~rcv.err /\ SameMode(ReqOracle, rcv.mode)
+InvNames == {"FramingTruthful", "ReceiverFollowsRfc", "CloseAgree", "NoHang"}
 
-CloseAgree ==
-    RespDone => /\ out.keeps <=> rcv.reuses
-                /\ rcv.mode.k = "UntilEOF" => ~out.keeps
+RespChecks(i, o, r) ==
+    LET orc == Rfc9112BodyLength(o.st, i.m, i.ver, o) IN
+    [FramingTruthful    |-> Truthful(orc, o) /\ FieldRules(i.ver, o.st, i.m, o),
+     ReceiverFollowsRfc |-> ~r.err /\ SameMode(orc, r.mode),
+     CloseAgree         |-> (o.keeps <=> r.reuses) /\ (r.mode.k = "UntilEOF" => ~o.keeps),
+     NoHang             |-> ~(r.mode.k = "UntilEOF" /\ o.keeps)]
 
-NoHang ==
-    /\ RespDone => ~(rcv.mode.k = "UntilEOF" /\ out.keeps)
-    /\ ReqDone => ~(out.waits100 /\ ~rcv.sends100)
+ReqChecks(q, o, r) ==
+    LET orc == Rfc9112ReqBodyLength(o) IN
+    [FramingTruthful    |-> Truthful(orc, o) /\ FieldRules(q.ver, 0, "", o),
+     ReceiverFollowsRfc |-> ~r.err /\ SameMode(orc, r.mode),
+     CloseAgree         |-> TRUE,
+     NoHang             |-> ~(o.waits100 /\ ~r.sends100)]
 
-\* --- the same invariants with the named deviations carved out (as-coded configuration) ---
-DevStaleWriter   == RespDone /\ out.refused /\ inp.comp # "off"
-DevHttp10Unsized == RespDone /\ ~out.refused /\ inp.ver = 10 /\ out.cl = None /\ out.te = "none" /\ ~MustEmpty(inp.m, inp.st)
+Oracle    == Rfc9112BodyLength(out.st, inp.m, inp.ver, out)
+ReqOracle == Rfc9112ReqBodyLength(out)
+
+Holds(n) == /\ RespDone => RespChecks(inp, out, rcv)[n]
+            /\ ReqDone => ReqChecks(inp, out, rcv)[n]
+FramingTruthful    == Holds("FramingTruthful")
+ReceiverFollowsRfc == Holds("ReceiverFollowsRfc")
+CloseAgree         == Holds("CloseAgree")
+NoHang             == Holds("NoHang")
+
+(* Every deviation on its own (everything else ideal) must break an invariant, and the driver wants to know
+   which and where: a constant-level enumeration over the same product space, printed by the POSTCONDITION.   *)
+BadResp(D) == {i \in RespInputs :
+                 LET o == SrvDecideD(i, Sz0, D)
+                     v == RespChecks(i, o, CliDecideD(i, o, D))
+                 IN  \E n \in InvNames : ~v[n]}
+BadReq(D)  == {q \in ReqInputs :
+                 LET o == ReqDecideD(q, Sz0, D)
+                 IN  ~o.refused /\ LET v == ReqChecks(q, o, SrvReqDecideD(q, o, D)) IN \E n \in InvNames : ~v[n]}
+BrokenBy(D, bi, bq) ==
+    {n \in InvNames :
+        \/ \E i \in bi : LET o == SrvDecideD(i, Sz0, D) IN ~RespChecks(i, o, CliDecideD(i, o, D))[n]
+        \/ \E q \in bq : LET o == ReqDecideD(q, Sz0, D) IN ~ReqChecks(q, o, SrvReqDecideD(q, o, D))[n]}
+Exhibit(k) ==
+    LET D == OnlyOff(k)
+        bi == BadResp(D)
+        bq == BadReq(D)
+        wit == IF bi # {} THEN CHOOSE i \in bi : TRUE ELSE IF bq # {} THEN CHOOSE q \in bq : TRUE ELSE [none |-> TRUE]
+    IN <<"VP", "E", k, BrokenBy(D, bi, bq), Cardinality(bi) + Cardinality(bq), wit>>
+PrintExhibits == TLCGet("distinct") >= 0 /\ \A k \in DevNames : PrintT(Exhibit(k))
+
+\* --- the same invariants with the named deviations carved out (as-coded configuration).  A carve-out exists only
+\* while its constant is FALSE: once a deviation is repaired (constant TRUE) the full invariant applies again. ---
+DevStaleWriter   == ~RefusedPrepareCleansWriter /\ RespDone /\ out.refused /\ inp.comp # "off"
+DevHttp10Unsized == ~Http10UnsizedCloses /\ RespDone /\ ~out.refused /\ inp.ver = 10 /\ out.cl = None /\ out.te = "none" /\ ~MustEmpty(inp.m, inp.st)
                         /\ ~inp.fclose /\ ~ReqClose(inp.ver, inp.rconn)
-DevHeadStream    == RespDone /\ inp.m = "HEAD" /\ IsStream(inp.kind) /\ inp.st \notin {204, 304}
-DevEmptyFlush    == RespDone /\ Oracle.k = "Empty" /\ inp.comp # "off" /\ ~IsBytes(inp.kind)
-DevHandlerConn   == RespDone /\ inp.hconn # "none"
-DevHeadNoLen     == RespDone /\ inp.m = "HEAD" /\ inp.ver = 11 /\ out.cl = None /\ out.te = "none" /\ out.conn = "none"
-DevConnect       == RespDone /\ inp.m = "CONNECT"
-DevChunkedFalse  == ReqDone /\ inp.chunked = "False" /\ ~(inp.compress /\ inp.body \in {"sized", "unsized"})
+DevHeadStream    == ~HeadStreamSuppressed /\ RespDone /\ inp.m = "HEAD" /\ IsStream(inp.kind) /\ inp.st \notin {204, 304}
+DevEmptyFlush    == ~EmptyBodyNoFlush /\ RespDone /\ Oracle.k = "Empty" /\ inp.comp # "off" /\ ~IsBytes(inp.kind)
+DevHandlerConn   == ~HandlerConnHonored /\ RespDone /\ inp.hconn # "none"
+DevHeadNoLen     == ~HeadNoLenReusable /\ RespDone /\ inp.m = "HEAD" /\ inp.ver = 11 /\ out.cl = None /\ out.te = "none" /\ out.conn = "none"
+DevConnect       == ~ConnectAware /\ RespDone /\ inp.m = "CONNECT"
+DevChunkedFalse  == ~ChunkedFlagTruthy /\ ReqDone /\ inp.chunked = "False" /\ ~(inp.compress /\ inp.body \in {"sized", "unsized"})
                         /\ inp.body # "unsized"
-DevChunkedNoTE   == ReqDone /\ inp.chunked = "True" /\ inp.body = "none" /\ inp.m \in GetMethods
-DevHeadReqBody   == ReqDone /\ inp.m = "HEAD" /\ (out.cl > 0 \/ out.te = "chunked")
-DevHttp10TE      == ReqDone /\ inp.ver = 10 /\ out.te = "chunked"
-DevExpect10      == ReqDone /\ inp.ver = 10 /\ inp.expect
+DevChunkedNoTE   == ~ChunkedSetsTE /\ ReqDone /\ inp.chunked = "True" /\ inp.body = "none" /\ inp.m \in GetMethods
+DevHeadReqBody   == ~HeadReqBodyFramed /\ ReqDone /\ inp.m = "HEAD" /\ (out.cl > 0 \/ out.te = "chunked")
+DevHttp10TE      == ~Http10NoChunkedReq /\ ReqDone /\ inp.ver = 10 /\ out.te = "chunked"
+DevExpect10      == ~Expect10Proceeds /\ ReqDone /\ inp.ver = 10 /\ inp.expect
 
 FramingTruthfulButKnown ==
     FramingTruthful \/ DevHeadStream \/ DevEmptyFlush \/ DevChunkedFalse \/ DevChunkedNoTE \/ DevHttp10TE \/ DevStaleWriter
